@@ -10,7 +10,7 @@ from engine.vloop import Deadlock
 from harness.common import World, mem_places, place_names, run_async
 
 
-def h10(S, max_m=2, extra_max=2, queues=1, max_limit=3, dmax_us=2000, zero=False):
+def h10(S, max_m=2, extra_max=2, queues=1, max_limit=3, dmax_us=2000, zero=False, backend="mem"):
     from repid import Job, Router, Worker
     from repid.converter import BasicConverter
 
@@ -30,7 +30,7 @@ def h10(S, max_m=2, extra_max=2, queues=1, max_limit=3, dmax_us=2000, zero=False
     qnames = ["q%d" % i for i in range(queues)]
 
     async def main(loop):
-        w = World()
+        w = World(backend=backend)
         await w.open(queues=qnames, record=True)
         r = Router()
         for qn in qnames:
@@ -52,11 +52,11 @@ def h10(S, max_m=2, extra_max=2, queues=1, max_limit=3, dmax_us=2000, zero=False
             out["returned"] = True
         except asyncio.TimeoutError:
             out["returned"] = False
-        await asyncio.sleep(0.01)
+        await asyncio.sleep(0.01 if backend == "mem" else 0.5)
         out["started_at_return"] = len(started)
         out["places"] = {}
         for qn in qnames:
-            out["places"].update(mem_places(w.broker, qn))
+            out["places"].update(w.places(qn))
         out["before"] = before
         out["calls"] = list(w.rec.calls)
 
@@ -74,6 +74,8 @@ def h10(S, max_m=2, extra_max=2, queues=1, max_limit=3, dmax_us=2000, zero=False
     left = [i for i in range(B) if i not in started]
     for i in left:
         names = place_names(out["places"], f"m{i}")
+        if names == ["processing"]:
+            S.tag("left_in_flight", "never-executed")
         S.check("unprocessed-message-still-waiting", names == ["waiting"], info=f"m{i}: {names}")
         if names == ["waiting"]:
             msg = out["places"][f"m{i}"][0][1]
@@ -149,6 +151,13 @@ HARNESSES = [
         bounds={"queues": "2", "M": "[1, 2]", "backlog": "M+1 (quick) / up to M+2", "durations": "(0, 1 ms] / (0, 2 ms]"},
         covers=["run-returned"],
     ),
+    Harness(
+        name="H10-redis", scenario=h10, workers=16, budget_s=900,
+        params={"quick": {"max_m": 1, "extra_max": 2, "queues": 1, "dmax_us": 250000, "max_limit": 2, "backend": "redis"},
+                "thorough": {"max_m": 2, "extra_max": 2, "queues": 1, "dmax_us": 250000, "max_limit": 2, "backend": "redis"}},
+        bounds={"broker": "real Redis broker/consumer (prefetch buffer) on the fake server", "M": "1 quick / [1,2] thorough", "backlog": "M+1..M+2",
+                "durations": "(0, 250 ms]", "tasks_limit": "[1, 2]"},
+        functions=["connections/redis/consumer.py:_RedisConsumer.finish"], covers=["run-returned"], stubs=["fake Redis server"]),
     Harness(
         name="H10-plugin", scenario=h10_plugin, workers=4,
         bounds={"older messages in the queue": "[0, 1]", "actor duration": "[0, 2 ms]"},
